@@ -1075,6 +1075,24 @@ impl<'a, 'b> GeneratorState<'a> {
         Ok(())
     }
 
+    // The comparison of the accumulator with 0 relies on the flags left by the computation of
+    // the switch expression. After a first comparison these are gone: compare explicitly
+    fn switch_compare_acc_with_zero(
+        &mut self,
+        e: &ExprType,
+        value: i32,
+        compared: &mut bool,
+        pos: usize,
+    ) -> Result<(), Error> {
+        if *compared && value == 0 {
+            if let ExprType::A(_) = e {
+                self.asm(CMP, &ExprType::Immediate(0), pos, false)?;
+            }
+        }
+        *compared = true;
+        Ok(())
+    }
+
     pub(crate) fn generate_switch(
         &mut self,
         expr: &'a Expr,
@@ -1096,6 +1114,8 @@ impl<'a, 'b> GeneratorState<'a> {
         let mut switchnextstatement_label =
             format!(".switchnextstatement{}", self.local_label_counter_if);
         debug!("Cases : {:?}", cases);
+        // Has the switch expression been compared with a case value already ?
+        let mut compared = false;
         for (case, is_last_element) in cases
             .iter()
             .enumerate()
@@ -1107,6 +1127,7 @@ impl<'a, 'b> GeneratorState<'a> {
             match case.0.len() {
                 0 => (),
                 1 => {
+                    self.switch_compare_acc_with_zero(&e, case.0[0], &mut compared, pos)?;
                     self.generate_condition_ex(
                         &e,
                         &Operation::Eq,
@@ -1119,6 +1140,7 @@ impl<'a, 'b> GeneratorState<'a> {
                 }
                 _ => {
                     for i in &case.0 {
+                        self.switch_compare_acc_with_zero(&e, *i, &mut compared, pos)?;
                         self.generate_condition_ex(
                             &e,
                             &Operation::Eq,
